@@ -237,7 +237,9 @@ package jsonpath
 //@ smt (assert (forall ((r Val) (c Val) (I (Array Int Val)) (o Int) (m Int) (x Int)) (! (=> (and (<= 0 x) (< x (sumX r c I o m)) (<= 0 m)) (and (<= 0 (segX r c I o m x)) (< (segX r c I o m x) m) (<= (sumX r c I o (segX r c I o m x)) x) (< x (sumX r c I o (+ (segX r c I o m x) 1))))) :pattern ((segX r c I o m x)))))
 //@ spec sumXof(r any, c any, s []syntaxNode, j int) int = sumX(r, c, A_Val[arr(s)], off(s), j)
 //@ spec segXof(r any, c any, s []syntaxNode, x int) int = segX(r, c, A_Val[arr(s)], off(s), len(s), x)
-//@ spec RLmultiDef(n *syntaxChildMultiIdentifier) bool = RLok(n) ==> (forall k {elemAt(n.identifiers, k)} :: off(n.identifiers) <= k && k < off(n.identifiers) + len(n.identifiers) ==> RLok(elemAt(n.identifiers, k))) && (n.isAllWildcard ==> RLok(n.unionQualifier)) && (forall r Val, c Val {RLn(n, r, c)} :: RLn(n, r, c) == (isType(c, map[string]interface{}) ? sumXof(r, c, n.identifiers, len(n.identifiers)) : ((n.isAllWildcard && isType(c, []interface{})) ? RLn(n.unionQualifier, r, c) : 0))) && (forall r Val, c Val, x {RLv(n, r, c, x)} :: 0 <= x && x < RLn(n, r, c) ==> RLv(n, r, c, x) == (isType(c, map[string]interface{}) ? RLv(A_Val[arr(n.identifiers)][idxOf(off(n.identifiers), segXof(r, c, n.identifiers, x))], r, c, x - sumXof(r, c, n.identifiers, segXof(r, c, n.identifiers, x))) : RLv(n.unionQualifier, r, c, x)))
+// (each inner selector, and the union twin, carries the SAME continuation as the multi-name node itself: that is what makes
+// the concatenation of the inner lists the multi-name step followed by the rest of the path; established by setNodeChain)
+//@ spec RLmultiDef(n *syntaxChildMultiIdentifier) bool = RLok(n) ==> (forall k {elemAt(n.identifiers, k)} :: off(n.identifiers) <= k && k < off(n.identifiers) + len(n.identifiers) ==> RLok(elemAt(n.identifiers, k)) && basicOf(elemAt(n.identifiers, k)).next == n.syntaxBasicNode.next) && (n.isAllWildcard ==> RLok(n.unionQualifier) && n.unionQualifier.syntaxBasicNode.next == n.syntaxBasicNode.next) && (forall r Val, c Val {RLn(n, r, c)} :: RLn(n, r, c) == (isType(c, map[string]interface{}) ? sumXof(r, c, n.identifiers, len(n.identifiers)) : ((n.isAllWildcard && isType(c, []interface{})) ? RLn(n.unionQualifier, r, c) : 0))) && (forall r Val, c Val, x {RLv(n, r, c, x)} :: 0 <= x && x < RLn(n, r, c) ==> RLv(n, r, c, x) == (isType(c, map[string]interface{}) ? RLv(A_Val[arr(n.identifiers)][idxOf(off(n.identifiers), segXof(r, c, n.identifiers, x))], r, c, x - sumXof(r, c, n.identifiers, segXof(r, c, n.identifiers, x))) : RLv(n.unionQualifier, r, c, x)))
 //@ spec WFmultiDef(n *syntaxChildMultiIdentifier) bool = RLmultiDef(n) && n != nil && height(n) == hgt(n.syntaxBasicNode) && WFbasic(n.syntaxBasicNode) && errRT(n.syntaxBasicNode) && wf(n.identifiers) && (arr(n.identifiers) == 0 || RO(n.identifiers)) && (forall k {elemAt(n.identifiers, k)} :: off(n.identifiers) <= k && k < off(n.identifiers) + len(n.identifiers) ==> elemAt(n.identifiers, k) != nil && WFnode(elemAt(n.identifiers, k)) && height(elemAt(n.identifiers, k)) < height(n) && (isType(elemAt(n.identifiers, k), *syntaxChildSingleIdentifier) ==> asType(elemAt(n.identifiers, k), *syntaxChildSingleIdentifier) != nil && RLsingleDef(asType(elemAt(n.identifiers, k), *syntaxChildSingleIdentifier)))) && (n.isAllWildcard ==> WFunionAt(n.unionQualifier) && WFnode(n.unionQualifier) && height(n.unionQualifier) < height(n)) && !chainSingle(n)
 //@ spec WFrecursiveDef(n *syntaxRecursiveChildIdentifier) bool = !RLok(n) && n != nil && height(n) == hgt(n.syntaxBasicNode) && WFbasic(n.syntaxBasicNode) && errRT(n.syntaxBasicNode) && n.syntaxBasicNode.next != nil && !chainSingle(n)
 // A filter over an array applies the continuation to the elements for which the filter holds (RH), in index order.
@@ -1151,7 +1153,11 @@ package jsonpath
 //@   modifies heap:C_Str, heap:alloc
 //@   ensures dec: isType(v, *string) ==> C_Str[asType(v, *string)] == jsonDec(old(A_Int[arr(data)]), off(data), len(data))
 //@   ensures err: ret == jsonErr(old(A_Int[arr(data)]), off(data), len(data))
+// Assumed (regexp semantics, not modelled): with the package's pattern `\\(.)` and the closure of unescape, which
+// returns the captured character, ReplaceAllStringFunc removes each escaping backslash: dotUnesc(src).
+//@ smt (declare-fun dotUnesc (Str) Str)
 //@ extern (*regexp.Regexp).ReplaceAllStringFunc
+//@   ensures dot: re == unescapeRegex && cloFn(repl) == fnconst("(*jsonPathParser).unescape$1") ==> ret == dotUnesc(src)
 //@   pure
 //@ extern (*regexp.Regexp).FindStringSubmatch
 //@   modifies heap:alloc, heap:A_Str
@@ -1334,11 +1340,17 @@ package jsonpath
 //@   parsetime
 //@   requires p != nil
 
+// C19 / C14: the node pushed holds the function VALUE found under that name when the path was parsed - filter functions
+// are looked up first - so later changes of the Config cannot reach a parsed function
 //@ func (*jsonPathParser).pushFunction
-//@   props C02 C19
+//@   props C02 C19 C14
 //@   parsetime
 //@   requires p != nil
+//@   requires wf(p.params)
 //@   panics ErrorFunctionNotFound
+//@   ensures pushed: len(p.params) == old(len(p.params)) + 1
+//@   ensures filter: has(p.filterFunctions, funcName) ==> isType(topParam(p), *syntaxFilterFunction) && asType(topParam(p), *syntaxFilterFunction) != nil && asType(topParam(p), *syntaxFilterFunction).function == p.filterFunctions[funcName] && asType(topParam(p), *syntaxFilterFunction).syntaxBasicNode.accessorMode == p.accessorMode
+//@   ensures aggregate: !has(p.filterFunctions, funcName) ==> has(p.aggregateFunctions, funcName) && isType(topParam(p), *syntaxAggregateFunction) && asType(topParam(p), *syntaxAggregateFunction) != nil && asType(topParam(p), *syntaxAggregateFunction).function == p.aggregateFunctions[funcName]
 
 //@ func (*jsonPathParser).pushIndexSubscript
 //@   props C02 C19
@@ -1459,11 +1471,14 @@ package jsonpath
 //@   requires p != nil
 //@   panics ErrorInvalidArgument
 
+// C16 (dot form): the name is the text with each escaping backslash removed.  Proved only relative to the assumed
+// regexp contract above - it pins the way unescape uses the pattern, so that a rewrite has to re-establish it.
 //@ func (*jsonPathParser).unescape
-//@   props C02 C19
+//@   props C02 C19 C16
 //@   parsetime
 //@   requires p != nil
-//@   requires p.unescapeRegex != nil
+//@   requires p.unescapeRegex != nil && p.unescapeRegex == unescapeRegex
+//@   ensures image: ret == dotUnesc(text)
 
 // C16: the bracket spellings.  A double-quoted name is decoded as the JSON string literal `"` + text + `"` (dqJson);
 // a single-quoted name is first re-escaped byte by byte into a JSON string literal by the table
